@@ -573,8 +573,8 @@ func b4(w *World, r *Report) {
 // ---------------------------------------------------------------- C12
 
 func checkC12(w *World, r *Report) {
-	r.Explanation = "Structural clause of C12: (O-1) both the validation of an unstaking transaction (on every success path for that tx type) and its execution (dominating the removal) refuse a sender that is not the owner of the stake found by the payload's tx hash under the target delegatee; (O-2) every assignment of a stake's refund height is `height of the current block + the governance unbonding period`; (O-3) the refund is control-dependent on `RefundHeight <= current height`, goes to the stake's owner, is PowerToAmount(power), is followed by deletion of that stake (C02 V-2), and runs once per block from EndBlock; (O-4) frozen-ledger keys are unique per stake (C02 V-4)."
-	r.NotCovered = "'exactly once' as a statement about histories (follows from O-3 and C18, not computed); governance changing the period affects only stakes released afterwards (by construction of O-2)."
+	r.Explanation = "Structural clause of C12: (O-1) both the validation of an unstaking transaction (on every success path for that tx type) and its execution (dominating the removal) refuse a sender that is not the owner of the stake found by the payload's tx hash under the target delegatee; (O-2) every assignment of a stake's refund height is `height of the current block + the governance unbonding period`; (O-3) the refund is control-dependent on `RefundHeight <= current height`, goes to the stake's owner, is PowerToAmount(power), is followed by deletion of that stake (C02 V-2), and runs once per block from EndBlock; (O-4) frozen-ledger keys are unique per stake (C02 V-4); (O-5) a stake that was moved or refunded is gone: deleting a record from a ledger (the delegatee emptied by an unstaking, the frozen stake after its refund) takes effect at the commit even when the record was also updated in the same block, and a record moved to the frozen ledger is read back as written (C18 L-1)."
+	r.NotCovered = "'exactly once' as a statement about histories (follows from O-3 and O-5, not computed); governance changing the period affects only stakes released afterwards (by construction of O-2)."
 	o1(w, r)
 	o2(w, r)
 	o3(w, r)
@@ -590,6 +590,10 @@ func checkC12(w *World, r *Report) {
 	r.Floor("O-2", 3, "refund height assignments")
 	r.Floor("O-3", 4, "refund")
 	r.Floor("O-4", 2, "key uniqueness")
+	if r.importObs(w, func(t *Report) { l1(w, t) }, "L-1", "O-5") == 0 {
+		r.Undecided("O-5", "ledger", "the ledger overlay analysis (C18 L-1) produced no obligation")
+	}
+	r.Floor("O-5", 2, "ledger overlay semantics")
 }
 
 func o1(w *World, r *Report) {
@@ -858,7 +862,7 @@ func checkC13(w *World, r *Report) {
 			e := &enumerator{w: w, eval: fe.eval, event: ev, max: 4000, complete: true, evCache: map[ssa.Instruction]string{}, hasEv: map[*ssa.Function]int{}, pathSensitiveEvents: true}
 			var out []pathEnd
 			e.walkFn(dr, nil, 0, func(evs []string, ret *ssa.Return, term string) {
-				out = append(out, pathEnd{append([]string(nil), evs...), term, ret})
+				out = append(out, pathEnd{append([]string(nil), evs...), term, ret, nil})
 			})
 			w.cur = nil
 			w.branchMarkers = saved
@@ -1121,22 +1125,132 @@ func j2(w *World, r *Report) {
 	}
 	dp := needFn(r, "J-2", w, fref{"ctrlers/gov/proposal", "GovProposal", "DoPunish"})
 	if dp != nil {
+		// DoPunish is evaluated on its paths (helpers expanded, simple helpers inlined
+		// in values): what matters is the sequence multiply, divide, shrink the voter,
+		// shrink the total, recompute the majority, with the vote cancelled before and
+		// re-cast after the voter's power changes
 		v := "recv.GovProposalHeader.Voters[p0.String()]#0"
 		x := "uint256.NewInt(uint64(" + v + ".Power))"
-		mul := w.findCall(dp, mulExpr(x, x, "uint256.NewInt(uint64(p1))"))
-		div := w.findCall(dp, x+".Div("+x+", uint256.NewInt(100))")
-		u64 := w.findCall(dp, x+".Uint64()")
-		ok := mul != nil && div != nil && u64 != nil && instrDominates(mul, div) && instrDominates(div, u64)
-		r.Check(ok, "J-2", "DoPunish:ratio", "the voter's weight loss is power x ratio / 100", "the voter's weight loss is not `power x ratio / 100`", fnSite(w, dp))
-		sp := w.findStore(dp, v+".Power", "("+v+".Power - int64("+x+".Uint64()))")
-		st := w.findStore(dp, "recv.GovProposalHeader.TotalVotingPower", "(recv.GovProposalHeader.TotalVotingPower - int64("+x+".Uint64()))")
-		sm := w.findStore(dp, "recv.GovProposalHeader.MajorityPower", "((recv.GovProposalHeader.TotalVotingPower * 2) / 3)")
-		r.Check(sp != nil && st != nil && sm != nil && instrDominates(st, sm), "J-2", "DoPunish:totals", "voter power and total voting power shrink by the same amount; majority = total x 2 / 3 afterwards", "DoPunish does not shrink voter power and total by the same amount and recompute the 2/3 majority", fnSite(w, dp))
-		cv := w.findCall(dp, "recv.cancelVote("+v+")")
-		dv := w.findCall(dp, "recv.doVote("+v+", "+v+".Choice)")
-		okV := cv != nil && dv != nil && sp != nil && instrDominates(cv, sp) == false // cancel is conditional; ordering checked by reachability
-		okV = cv != nil && dv != nil && sp != nil && instrReaches(cv, sp) && instrReaches(sp, dv) && w.condCanonHolds(cv.Block(), "("+v+".Choice >= 0)", 1)
-		r.Check(okV, "J-2", "DoPunish:recast", "an existing vote is cancelled before the power shrinks and re-cast with the reduced power", "an existing vote keeps the offender's old weight (cancel/re-cast around the reduction is missing)", fnSite(w, dp))
+		slash := "int64(" + x + ".Uint64())"
+		calls := map[string]string{
+			mulExpr(x, x, "uint256.NewInt(uint64(p1))"): "MUL",
+			x + ".Div(" + x + ", uint256.NewInt(100))":  "DIV",
+			"recv.cancelVote(" + v + ")":                "CV",
+			"recv.doVote(" + v + ", " + v + ".Choice)":  "DV",
+		}
+		stores := map[string]string{
+			v + ".Power=(" + v + ".Power - " + slash + ")":                                                      "SP",
+			"recv.GovProposalHeader.TotalVotingPower=(recv.GovProposalHeader.TotalVotingPower - " + slash + ")": "ST",
+			"recv.GovProposalHeader.MajorityPower=((recv.GovProposalHeader.TotalVotingPower * 2) / 3)":          "SM",
+		}
+		vI := ""
+		for _, b := range dp.Blocks {
+			for _, in := range b.Instrs {
+				if ex, isE := in.(*ssa.Extract); isE && ex.Index == 0 && w.Canon(ex) == v {
+					vI = w.CanonI(ex)
+				}
+			}
+		}
+		ev := func(in ssa.Instruction) string {
+			switch y := in.(type) {
+			case ssa.CallInstruction:
+				if l, ok := calls[w.canonCall(y.Common(), 0)]; ok {
+					return l
+				}
+				// other 256-bit arithmetic (also what a helper's body looks like before its
+				// parameters are bound, so that the helper is expanded)
+				if f := y.Common().StaticCallee(); f != nil && f.Pkg != nil && f.Pkg.Pkg.Path() == "github.com/holiman/uint256" && (f.Name() == "Mul" || f.Name() == "Div") {
+					return "ARITH?"
+				}
+			case *ssa.Store:
+				if _, isF := y.Addr.(*ssa.FieldAddr); !isF {
+					return ""
+				}
+				a := w.Canon(y.Addr)
+				val := w.CanonI(y.Val)
+				if vI != "" && vI != v {
+					val = strings.ReplaceAll(val, vI, v) // the voter lookup with Address.String() inlined
+				}
+				if l, ok := stores[a+"="+val]; ok {
+					return l
+				}
+				if strings.HasSuffix(a, ".Power") || strings.HasSuffix(a, ".TotalVotingPower") || strings.HasSuffix(a, ".MajorityPower") {
+					return "OTHER:" + a
+				}
+			}
+			return ""
+		}
+		seq := func(evs []string) map[string][]int {
+			pos := map[string][]int{}
+			for i, e := range evs {
+				pos[e] = append(pos[e], i)
+			}
+			return pos
+		}
+		one := func(pos map[string][]int, ks ...string) bool {
+			for _, k := range ks {
+				if len(pos[k]) != 1 {
+					return false
+				}
+			}
+			return true
+		}
+		all := w.runUnder(dp, nil, ev)
+		okRatio, okTotals, okOrder := all.complete && all.ok > 0, all.complete && all.ok > 0, all.complete && all.ok > 0
+		nPunish := 0
+		for _, evs := range all.okEvents {
+			pos := seq(evs)
+			if len(evs) == 0 {
+				continue // the voter is unknown: nothing happens
+			}
+			nPunish++
+			for e := range pos {
+				if strings.HasPrefix(e, "OTHER:") {
+					okTotals = false
+				}
+				if e == "ARITH?" {
+					okRatio = false
+				}
+			}
+			if !one(pos, "MUL", "DIV", "SP", "ST") || !(pos["MUL"][0] < pos["DIV"][0] && pos["DIV"][0] < pos["SP"][0] && pos["DIV"][0] < pos["ST"][0]) {
+				okRatio = false
+			}
+			if !one(pos, "SP", "ST", "SM") || !(pos["ST"][0] < pos["SM"][0]) {
+				okTotals = false
+			}
+			if len(pos["SP"]) == 1 {
+				for _, i := range pos["CV"] {
+					if i > pos["SP"][0] {
+						okOrder = false
+					}
+				}
+				for _, i := range pos["DV"] {
+					if i < pos["SP"][0] {
+						okOrder = false
+					}
+				}
+			}
+		}
+		if nPunish == 0 {
+			okRatio, okTotals, okOrder = false, false, false
+		}
+		r.Check(okRatio, "J-2", "DoPunish:ratio", "the voter's weight loss is power x ratio / 100", "the voter's weight loss is not `power x ratio / 100`", fnSite(w, dp))
+		r.Check(okTotals, "J-2", "DoPunish:totals", "voter power and total voting power shrink by the same amount; majority = total x 2 / 3 afterwards", "DoPunish does not shrink voter power and total by the same amount and recompute the 2/3 majority", fnSite(w, dp))
+		// a voter that has voted and keeps some power: cancelled before, re-cast after
+		voted := w.runUnder(dp, nil, ev, A(v+".Choice", ">=", "0"), A(v+".Power", ">", "0"))
+		okV := okOrder && voted.complete && voted.ok > 0
+		nV := 0
+		for _, evs := range voted.okEvents {
+			pos := seq(evs)
+			if len(evs) == 0 {
+				continue
+			}
+			nV++
+			if len(pos["CV"]) != 1 || len(pos["DV"]) != 1 || len(pos["SP"]) != 1 {
+				okV = false
+			}
+		}
+		r.Check(okV && nV > 0, "J-2", "DoPunish:recast", "an existing vote is cancelled before the power shrinks and re-cast with the reduced power", "an existing vote keeps the offender's old weight (cancel/re-cast around the reduction is missing)", fnSite(w, dp))
 	}
 	for _, m := range []struct{ fn, want string }{{"cancelVote", "recv.Options[p0.Choice].CancelVote(p0.Power)"}, {"doVote", "recv.Options[p1].DoVote(p0.Power)"}} {
 		fn := needFn(r, "J-2", w, fref{"ctrlers/gov/proposal", "GovProposal", m.fn})
